@@ -4,7 +4,8 @@
 From Coq Require Import Strings.String Strings.Byte.
 From Coq Require Import List Arith NArith ZArith Bool.
 From PV Require Import Base.Bytes Base.Outcome Aol.Model Did.Model Pnft.Model Bank.Model Chain.Model.
-From PV Require Import Sign.Model Sign.JsonProofs Sign.Proofs.
+From PV Require Import Sign.Model Sign.JsonProofs Sign.Proofs Chain.SchemaProps.
+From PV Require Generated.GenApp.
 Import ListNotations.
 
 (** SIGN_MODE_DIRECT: equal sign bytes force equal message lists (every type, every field), chain id, account number,
@@ -82,3 +83,10 @@ Theorem C14_deterministic : forall mode c a s memo gas fee ai pk msgs x y,
   sign_bytes mode c a s memo gas fee ai pk msgs = x -> sign_bytes mode c a s memo gas fee ai pk msgs = y -> x = y.
 Proof. exact sign_bytes_deterministic. Qed.
 Print Assumptions C14_deterministic.
+
+(** source tie (T1): the ante chain of app/ante.go contains, in order, the signature verification against these sign bytes
+    (and the public-key, signature-count and sequence decorators around it): "hence a signature collected for one message
+    can never validate a transaction carrying a different message" rests on it *)
+Theorem C14_ante_chain_as_modelled : GenApp.ante_decorators = modelled_ante_chain.
+Proof. exact ante_chain_as_modelled. Qed.
+Print Assumptions C14_ante_chain_as_modelled.
